@@ -363,3 +363,27 @@ Example C01_ext_refines_nonvacuous :
      XBase (CInsertOne 0 ("db", "c")%string [("a", VInt32 1)]%string);
      XListColls 0 "db"%string []].
 Proof. repeat constructor; discriminate. Qed.
+
+(* ---------------- listings follow the writes ---------------- *)
+
+(* a collection that CreateCollection created is listed (filter accepting everything) *)
+Theorem C01_created_collection_is_listed :
+  forall matchf applyf extractf projectf now ds sid h ds' q res,
+    (forall d, matchf d q = Ok true) ->
+    xstep matchf applyf extractf projectf now ds (XCreateColl sid h) = (ds', XR ROk) ->
+    txn_list_collections matchf (ds_cat ds') (fst h) q = inl res ->
+    In (coll_spec h) res.
+Proof. exact created_collection_is_listed. Qed.
+Print Assumptions C01_created_collection_is_listed.
+
+(* a collection that Collection.Drop dropped is in no listing, whatever the filter *)
+Theorem C01_dropped_collection_is_not_listed :
+  forall matchf applyf extractf projectf now ds sid h ds' q res,
+    step matchf applyf extractf projectf now ds (CDropColl sid h) = (ds', ROk) ->
+    no_error (fun d => matchf d q)
+             (map (fun hc => coll_spec (fst hc))
+                  (filter (fun hc => String.eqb (fst (fst hc)) (fst h)) (cat_ns (ds_cat ds')))) ->
+    txn_list_collections matchf (ds_cat ds') (fst h) q = inl res ->
+    ~ In (coll_spec h) res.
+Proof. exact dropped_collection_is_not_listed. Qed.
+Print Assumptions C01_dropped_collection_is_not_listed.
